@@ -47,7 +47,15 @@ pub struct McClient {
 
 impl McClient {
     pub async fn connect(server: SocketAddr, bind_ip: Option<IpAddr>) -> std::io::Result<Self> {
+        Self::connect_with(server, bind_ip, None).await
+    }
+
+    /// `rcvbuf`: a fixed (small) receive buffer, for clients that are slow to read
+    pub async fn connect_with(server: SocketAddr, bind_ip: Option<IpAddr>, rcvbuf: Option<u32>) -> std::io::Result<Self> {
         let sock = if server.is_ipv4() { TcpSocket::new_v4()? } else { TcpSocket::new_v6()? };
+        if let Some(n) = rcvbuf {
+            sock.set_recv_buffer_size(n)?;
+        }
         // the checks open tens of thousands of short connections: local ports in TIME_WAIT must be reusable,
         // and closing aborts the connection (no TIME_WAIT on either side) so that later checks find free ports
         sock.set_reuseaddr(true)?;
@@ -182,11 +190,13 @@ pub struct LoginParams {
     pub uuid: u128,
     pub auth_cookie: Option<Vec<u8>>,
     pub wait: Duration,
+    /// the client waits this long before it answers the authentication cookie request
+    pub auth_cookie_delay: Duration,
 }
 
 impl Default for LoginParams {
     fn default() -> Self {
-        Self { intent: 2, host: "play.example".into(), port: 25565, name: "NetPlayer".into(), uuid: 0x069a79f4_44e9_4726_a5be_fca90e38aaf5, auth_cookie: None, wait: Duration::from_secs(2) }
+        Self { intent: 2, host: "play.example".into(), port: 25565, name: "NetPlayer".into(), uuid: 0x069a79f4_44e9_4726_a5be_fca90e38aaf5, auth_cookie: None, wait: Duration::from_secs(2), auth_cookie_delay: Duration::ZERO }
     }
 }
 
@@ -228,6 +238,9 @@ impl McClient {
                 out.packets.push(pk.clone());
                 match pk {
                     Pkt::LoginCookieRequest { key } if key == "passage:authentication" => {
+                        if !p.auth_cookie_delay.is_zero() {
+                            tokio::time::sleep(p.auth_cookie_delay).await;
+                        }
                         tri!(self.send(&codec::sb_login_cookie_response("passage:authentication", p.auth_cookie.as_deref())).await.map_err(io));
                     }
                     Pkt::EncryptionRequest { .. } => break,
@@ -525,10 +538,16 @@ pub struct App {
 
 /// `proxy` is off | v1 | v2 | v1v2; `limit` 0 = no rate limiter (window one hour otherwise)
 pub fn spawn_app(max_packet_length: u64, expiry: u64, timeout: u64, proxy: &str, limit: usize) -> App {
+    spawn_app_with(max_packet_length, expiry, timeout, proxy, limit, &[])
+}
+
+/// `extra`: further arguments understood by the child (`bigstatus`)
+pub fn spawn_app_with(max_packet_length: u64, expiry: u64, timeout: u64, proxy: &str, limit: usize, extra: &[&str]) -> App {
     let port = free_port();
     let exe = std::env::current_exe().expect("exe");
     let child = std::process::Command::new(exe)
         .args(["C14-child", &port.to_string(), &max_packet_length.to_string(), &expiry.to_string(), &timeout.to_string(), if proxy.is_empty() { "off" } else { proxy }, &limit.to_string()])
+        .args(extra)
         .stdout(std::process::Stdio::null())
         .stderr(std::process::Stdio::null())
         .spawn()
